@@ -307,3 +307,4 @@ def install(it):
     A(r'futures::stream::FuturesUnordered::<.*>::(len)', lambda it, a, ty, c: usize(len(it.load(a[0]).fields)))
     A(r'futures::stream::FuturesUnordered::<.*>::(is_empty)', lambda it, a, ty, c: len(it.load(a[0]).fields) == 0)
     A(r'indexmap::IndexMap::<.*>::new', lambda it, a, ty, c: MapModel(kind='indexmap'))
+    A(r'tokio_stream::StreamMap::<.*>::new', lambda it, a, ty, c: MapModel(kind='streammap'))
